@@ -732,6 +732,11 @@ def derive(ctx, base, tag, actions, inserts, nb_action="keep"):
     elif nb_action == "minor":
         if not ctx.with_ids and "minor" in ctx.sym:
             nb["nbformat_minor"] = ctx.E.int(ctx.fresh("minor", tag), lo=0, hi=4)
+    elif nb_action == "upgrade":
+        # this side was saved by a newer Jupyter: format 4.5, every cell gets an id
+        if not ctx.with_ids:
+            nb["nbformat_minor"] = 5
+            nb["cells"] = [dict(c, id="up%s%05d" % (tag[0], k)) for k, c in enumerate(cells)]
     nb["metadata"] = md
     return nb
 
